@@ -357,6 +357,14 @@ def stars (i : Nat) : String := String.ofList (List.replicate i '*')
 /-- the environment key of field `f` of element `i` of the object list at `path` -/
 def ikey (path : String) (i : Nat) (f : String) : String := "#" ++ stars i ++ "#" ++ path ++ f
 
+/-- `xs.append(x)` on a local list of strings (the translation rebinds the local) -/
+def append_ (xs x : V) : V :=
+  match xs, x with
+  | .exc n, _ => .exc n
+  | _, .exc n => .exc n
+  | .strs l, .str s => .strs (l ++ [s])
+  | _, _ => .exc "TypeError"
+
 /-- the `i`-th loop-carried local -/
 def nth (locs : List V) (i : Nat) : V := locs.getD i (V.exc "UnboundLocalError")
 
